@@ -24,6 +24,7 @@ def check(repo: Repo, rep, tier):
     reeval_raises(repo, rep)
     reeval_fresh(repo, rep)
     clone_def(repo, rep)
+    index_bound(repo, rep)
 
 
 def wrapper_frames(repo: Repo, f: Func):
@@ -452,3 +453,74 @@ def reeval_fresh(repo: Repo, rep):
             else:
                 rep.ok("R-REEVAL-FRESH", f, c, f"_re_eval({short(a0, 30)}, ...) from the fresh argument")
     rep.floor("R-REEVAL-FRESH", "_re_eval call sites", n, 4)
+
+
+AST_LISTS = ("args", "elts", "keywords")
+
+
+def index_bound(repo: Repo, rep):
+    rep.rule(
+        "R-INDEX-BOUND",
+        "in the adapters and snapshot values, a subscript of a call/list node's child list (`<node>.args[i]`, `.elts[i]`, `.keywords[i]`) whose index does not come "
+        "from iterating that very list is bounded by `i < len(<node>.<list>)` (conditional expression or dominating test): the index then counts the *value's* "
+        "arguments, and the source may spell fewer (`defaultdict(list)` for a value with two arguments) - the second evaluation of such a snapshot() would "
+        "raise IndexError instead of comparing",
+    )
+    n = 0
+    for f in repo.pkg_funcs():
+        if not (f.module.rel.startswith("_adapter/") or f.module.rel.startswith("_snapshot/")):
+            continue
+        for sub in [x for x in body_nodes(f.node) if isinstance(x, ast.Subscript)]:
+            v = sub.value
+            if not (isinstance(v, ast.Attribute) and v.attr in AST_LISTS and isinstance(v.value, ast.Name)):
+                continue
+            idx = sub.slice
+            if isinstance(idx, (ast.Constant, ast.Slice)) or (isinstance(idx, ast.UnaryOp) and isinstance(idx.operand, ast.Constant)):
+                continue
+            n += 1
+            lst = norm(v)
+            want = {f"{norm(idx)} < len({lst})", f"len({lst}) > {norm(idx)}"}
+            bounded = False
+            # conditional expression around the subscript, or any enclosing `if` test, naming the bound
+            from ..model import ancestors
+
+            for a in ancestors(sub):
+                if isinstance(a, ast.IfExp) and norm(a.test) in want and any(sub is y for y in ast.walk(a.body)):
+                    bounded = True
+                if isinstance(a, ast.If) and norm(a.test) in want and any(sub is y for s in a.body for y in ast.walk(s)):
+                    bounded = True
+                if isinstance(a, ast.Try) and any(h.type is None or "IndexError" in norm(h.type) or norm(h.type) in ("Exception", "LookupError") for h in a.handlers) and any(sub is y for s in a.body for y in ast.walk(s)):
+                    bounded = True
+                if a is f.node:
+                    break
+            if not bounded:
+                # any other spelling of the bound (`i >= len(..)` with an early exit, `len(..) <= i`, min(..)): a comparison
+                # of this index with the length of this list somewhere in the function - accepted without judging its direction
+                for cmpn in [x for x in body_nodes(f.node) if isinstance(x, ast.Compare)]:
+                    t = norm(cmpn)
+                    if f"len({lst})" in t and any(isinstance(y, ast.Name) and y.id == norm(idx) for y in ast.walk(cmpn)):
+                        bounded = True
+            # index produced by enumerating the same list
+            for a in ancestors(sub):
+                its = []
+                if isinstance(a, ast.For):
+                    its.append((a.target, a.iter))
+                if isinstance(a, (ast.ListComp, ast.GeneratorExp, ast.SetComp, ast.DictComp)):
+                    its += [(g.target, g.iter) for g in a.generators]
+                for tgt, it in its:
+                    if norm(idx) in {norm(x) for x in ast.walk(tgt) if isinstance(x, ast.Name)} and lst in norm(it):
+                        bounded = True
+                if a is f.node:
+                    break
+            if bounded:
+                rep.ok("R-INDEX-BOUND", f, sub, f"`{norm(sub)}` is bounded")
+            else:
+                rep.violation(
+                    "R-INDEX-BOUND",
+                    f,
+                    sub,
+                    f"`{norm(sub)}` in {f.qualname}: the index counts the value's arguments, not the nodes of the source; a call that omits a default-valued argument "
+                    f"(`snapshot(defaultdict(list))` evaluated twice) raises IndexError",
+                    construct=f"{f.qualname}:{norm(sub)}",
+                )
+    rep.floor("R-INDEX-BOUND", "runtime-indexed AST child lists", n, 1)
